@@ -635,6 +635,122 @@ example : ∃ r, reportDebugInfo toApiFilePath C09_exFrames = some r ∧ r.files
 example : FirstMatch toApiFilePath C09_exShared "/home/u/proj/src/main.rs" C09_exLocal :=
   ⟨[], [C09_exCargo, C09_exLocal], by decide, by decide, by simp⟩
 
+/-- **The path handed to the file system is the matched raw path as it stands.** With wholesym's policy, a
+local debug file `dbg` and a request whose file matches a frame `fp` of the requested offset (raw path not a
+URL): exactly one location is loaded; for an absolute raw path it is `LocalFile raw` — the very string of the
+debug info, no component dropped, collapsed or otherwise rewritten — and for a relative one `LocalFile (join
+(parent dbg) raw)`. Consequently, when the helper's `fileLen` is the operating system's reading `osRead` of a
+path string (symlinks and `..` resolved by the OS, not lexically), the response is `ok n` exactly when the OS
+reads `n` bytes for that very string, and an open error exactly when the OS cannot read it. -/
+theorem C09_wholesym_path_verbatim (ops : PathOps) (apiPath : SourceFilePath → String)
+    (m : Manager WLoc WLoc) (hm : m.locationFor = wholesymLocationFor ops)
+    (osRead : String → Option Nat)
+    (hf : m.fileLen = fun l => match l with
+      | .localFile p => osRead p
+      | _ => none)
+    (id : String) (l : Loaded WLoc) (dbg : String) (hsm : loadSymbolMap m id = some l)
+    (hloc : l.dfl = .localFile dbg) (rq : OffsetRequest) (hp : rq.parsed = true) (hid : rq.debugId = some id)
+    (fs : List Frame) (fp : SourceFilePath) (hl : l.lookup rq.offset = .frames fs)
+    (hfm : FirstMatch apiPath fs rq.file fp)
+    (hnu : (fp.rawPath.startsWith "https://" || fp.rawPath.startsWith "http://") = false) :
+    (ops.isAbsolute fp.rawPath = true →
+      (sourceApiAt apiPath m rq).loads = [.localFile fp.rawPath] ∧
+      (sourceApiAt apiPath m rq).outcome =
+        (match osRead fp.rawPath with
+         | some n => .ok n
+         | none => .err .openFile)) ∧
+    (ops.isAbsolute fp.rawPath = false → ∀ b, ops.parent dbg = some b →
+      (sourceApiAt apiPath m rq).loads = [.localFile (ops.join b fp.rawPath)] ∧
+      (sourceApiAt apiPath m rq).outcome =
+        (match osRead (ops.join b fp.rawPath) with
+         | some n => .ok n
+         | none => .err .openFile)) := by
+  have hfind := (findPermitted_eq_some_iff _ _ _ _).2 hfm
+  have hres : sourceApiAt apiPath m rq
+      = loadSourceFile (⟨l.lookup rq.offset, m.locationFor l.dfl, m.fileLen⟩ : Env WLoc) fp := by
+    unfold sourceApiAt
+    rw [hid, envOf_some m id l _ hsm]
+    unfold sourceApi
+    simp [hp, hl, hfind]
+  constructor
+  · intro habs
+    have hlocn : m.locationFor l.dfl fp.rawPath = some (.localFile fp.rawPath) := by
+      rw [hm, hloc]; simp [wholesymLocationFor, hnu, habs]
+    rw [hres]
+    unfold loadSourceFile
+    simp only [hlocn, hf]
+    cases osRead fp.rawPath <;> simp
+  · intro hrel b hb
+    have hlocn : m.locationFor l.dfl fp.rawPath = some (.localFile (ops.join b fp.rawPath)) := by
+      rw [hm, hloc]; simp [wholesymLocationFor, hnu, hrel, hb]
+    rw [hres]
+    unfold loadSourceFile
+    simp only [hlocn, hf]
+    cases osRead (ops.join b fp.rawPath) <;> simp
+
+/-- The model's response class and content satisfy the content-only specification `specOkContent` (the judge
+of the real-wholesym cases, where loads cannot be observed), for every request, when the address has frames. -/
+theorem C09_model_meets_content_spec {Loc : Type} (apiPath : SourceFilePath → String)
+    (env : Env Loc) (req : Request) (fs : List Frame) (r : ReportedDebugInfo)
+    (hl : env.lookup = .frames fs) (hr : reportDebugInfo apiPath fs = some r) :
+    specOkContent (pairsOf apiPath fs) r.files env.locationFor env.fileLen (req.parsed && req.debugIdOk) req.file
+      (sourceApi apiPath env req).outcome = true := by
+  rcases sourceApi_cases apiPath env req with ⟨_, ha, hc⟩ | ⟨hp, hd, fs', fp, hl', hf, he⟩
+  · have hnot : (req.parsed && req.debugIdOk && r.files.contains req.file) = false := by
+      rcases hc with hc | hc | hc | hc | hc | ⟨fs', hl', hn, _⟩
+      · simp [hc]
+      · simp [hc]
+      · rw [hl] at hc; cases hc
+      · rw [hl] at hc; cases hc
+      · rw [hl] at hc; cases hc
+      · rw [hl] at hl'; cases hl'
+        cases hcont : r.files.contains req.file with
+        | false => simp
+        | true =>
+          exfalso
+          have hmem : req.file ∈ r.files := by simpa using hcont
+          obtain ⟨fp, hm, _⟩ := C09_complete apiPath env fs r hl hr req.file hmem
+          rw [(findPermitted_eq_some_iff _ _ _ _).2 hm] at hn
+          cases hn
+    unfold specOkContent
+    cases ho : (sourceApi apiPath env req).outcome with
+    | ok n => rw [ho] at ha; cases ha
+    | err e =>
+      have hgoal : (!(req.parsed && req.debugIdOk && r.files.contains req.file)) = true := by rw [hnot]; rfl
+      cases e with
+      | openFile => rw [ho] at ha; simp [Outcome.accepted] at ha
+      | refusedLocation => rw [ho] at ha; simp [Outcome.accepted] at ha
+      | parse => exact hgoal
+      | noSymbols => exact hgoal
+      | noDebugInfo => exact hgoal
+      | invalidPath => exact hgoal
+  · rw [hl] at hl'; cases hl'
+    have hm := (findPermitted_eq_some_iff _ _ _ _).1 hf
+    obtain ⟨r', hr', hin⟩ := C09_only_reported apiPath fs req.file fp hm
+    rw [hr] at hr'; cases hr'
+    obtain ⟨hmem, hpath⟩ := firstMatch_mem hm
+    have hpair : (fp.rawPath, apiPath fp) ∈ (pairsOf apiPath fs).filter (fun p => p.2 == req.file) := by
+      refine List.mem_filter.2 ⟨?_, by simp [hpath]⟩
+      unfold pairsOf; exact List.mem_map.2 ⟨fp, hmem, rfl⟩
+    have hcont : r.files.contains req.file = true := by simpa using hin
+    rw [he]
+    unfold loadSourceFile specOkContent
+    cases hloc : env.locationFor fp.rawPath with
+    | none =>
+      simp only [hp, hd, hcont, Bool.and_self, Bool.true_and]
+      refine List.any_eq_true.2 ⟨(fp.rawPath, apiPath fp), hpair, ?_⟩
+      simp [hloc]
+    | some loc =>
+      cases hlen : env.fileLen loc with
+      | none =>
+        simp only [hlen, hp, hd, hcont, Bool.and_self, Bool.true_and]
+        refine List.any_eq_true.2 ⟨(fp.rawPath, apiPath fp), hpair, ?_⟩
+        simp [hloc, hlen]
+      | some n =>
+        simp only [hlen, hp, hd, hcont, Bool.and_self, Bool.true_and]
+        refine List.any_eq_true.2 ⟨(fp.rawPath, apiPath fp), hpair, ?_⟩
+        simp [hloc, hlen]
+
 /-! ### Non-vacuity of the offset / candidate / receiver theorems
 
 Four candidates: one fails to load, one is another build, two carry the requested build (the first of them, a
@@ -699,3 +815,22 @@ example : parseModuleOffset "0x0000000000ff".toList = some 255 := by decide
 example : parseModuleOffset "0xffffffff".toList = some 4294967295 := by decide
 example : ∀ s ∈ ["0x100000000", "1f", "0X1f", "0x", "0x+", "0x-1", "0x1g", "0x 1", "", "x1", "0x1_0"],
     parseModuleOffset s.toList = none := by decide
+
+-- hypotheses of C09_wholesym_path_verbatim: a local Breakpad file wins, the file system is the OS's reading of
+-- path strings (here: only the path through the symlinked directory is readable, 64 bytes)
+example : ∃ (m : Manager WLoc WLoc) (l : Loaded WLoc) (osRead : String → Option Nat),
+    m.locationFor = wholesymLocationFor ⟨fun p => p.startsWith "/", fun _ => some "/ROOT/sym", fun a b => a ++ "/" ++ b⟩ ∧
+    (m.fileLen = fun l => match l with
+      | .localFile p => osRead p
+      | _ => none) ∧
+    loadSymbolMap m "ID1" = some l ∧ l.dfl = .localFile "/ROOT/sym/lib" ∧
+    l.lookup 4096 = .frames [⟨some ⟨"/ROOT/src/link/../prog.c", none⟩⟩] ∧
+    osRead "/ROOT/src/link/../prog.c" = some 64 ∧ osRead "/ROOT/src/prog.c" = none :=
+  ⟨⟨none, [.ok ⟨"ID1", .localFile "/ROOT/sym/lib", fun _ => .frames [⟨some ⟨"/ROOT/src/link/../prog.c", none⟩⟩]⟩],
+      wholesymLocationFor ⟨fun p => p.startsWith "/", fun _ => some "/ROOT/sym", fun a b => a ++ "/" ++ b⟩,
+      fun l => match l with
+        | .localFile p => (fun p => if p = "/ROOT/src/link/../prog.c" then some 64 else none) p
+        | _ => none⟩,
+    ⟨"ID1", .localFile "/ROOT/sym/lib", fun _ => .frames [⟨some ⟨"/ROOT/src/link/../prog.c", none⟩⟩]⟩,
+    fun p => if p = "/ROOT/src/link/../prog.c" then some 64 else none,
+    rfl, rfl, by simp [loadSymbolMap, List.findSome?, candMatch], rfl, rfl, by simp, by decide⟩
